@@ -5,6 +5,8 @@
 //! history closes and reopens the file-backed variants before the final Observe.
 use crate::dbx::*;
 use crate::hist::observe_variants;
+use crate::search::finish_search;
+use crate::enc::qid_enc;
 use agdb::*;
 use serde_json::{Value, json};
 use vcore::{Args, Trace};
@@ -66,6 +68,8 @@ pub fn run(args: &Args) {
     let out = args.str("out", &format!("{work}/mbt_trace.ndjson"));
     let first = args.num("first", 0);
     let reopen_every = args.num("reopen-every", 5);
+    let searches = args.num("searches", 0) == 1;
+    let (mut n_search, mut n_search_nt) = (0u64, 0u64);
     let kinds: Vec<Kind> = args.str("variants", "memory").split(',').map(|n| Kind::all().into_iter().find(|k| k.name() == n).expect("variant")).collect();
     std::fs::create_dir_all(&work).unwrap();
     std::panic::set_hook(Box::new(|_| {}));
@@ -125,7 +129,43 @@ pub fn run(args: &Args) {
                 dbs = again;
                 n_reopen += 1;
             }
-            if !dead && !dbs.is_empty() { trace.emit(observe_variants(&dbs)); } else { aborted += 1; }
+            if !dead && !dbs.is_empty() {
+                let obs = observe_variants(&dbs);
+                trace.emit(obs.clone());
+                if searches && obs["ev"] == "Observe" {
+                    // the whole family: every element (and one missing id) as origin, forward and reverse,
+                    // breadth and depth first, plus the elements search
+                    let mut all: Vec<i64> = obs["nodes"].as_array().unwrap().iter().map(|x| x.as_i64().unwrap()).collect();
+                    all.extend(obs["edges"].as_array().unwrap().iter().map(|e| e[0].as_i64().unwrap()));
+                    all.push(77);
+                    let refs: Vec<&DbX> = dbs.iter().map(|(_, d, _)| d).collect();
+                    let blank = || SearchQuery { algorithm: SearchQueryAlgorithm::BreadthFirst, origin: QueryId::Id(DbId(0)), destination: QueryId::Id(DbId(0)),
+                                                 limit: 0, offset: 0, order_by: vec![], conditions: vec![] };
+                    for id in &all {
+                        for (alg, name) in [(SearchQueryAlgorithm::BreadthFirst, "bfs"), (SearchQueryAlgorithm::DepthFirst, "dfs")] {
+                            for fwd in [true, false] {
+                                let mut q = blank();
+                                q.algorithm = alg;
+                                let o = QueryId::Id(DbId(*id));
+                                let oj = qid_enc(&o);
+                                if fwd { q.origin = o; } else { q.destination = o; }
+                                let head = json!({"ev": "Search", "alg": name, "dir": if fwd { "fwd" } else { "rev" }, "origin": oj, "dest": ["i", 0],
+                                                  "conds": [], "limit": 0, "offset": 0, "order": []});
+                                let ev = finish_search(head, &q, &refs);
+                                if ev["base"].as_array().map(|a| a.len() > 1).unwrap_or(false) { n_search_nt += 1; }
+                                trace.emit(ev);
+                                n_search += 1;
+                            }
+                        }
+                    }
+                    let mut q = blank();
+                    q.algorithm = SearchQueryAlgorithm::Elements;
+                    let head = json!({"ev": "Search", "alg": "elements", "dir": "fwd", "origin": ["i", 0], "dest": ["i", 0],
+                                      "conds": [], "limit": 0, "offset": 0, "order": []});
+                    trace.emit(finish_search(head, &q, &refs));
+                    n_search += 1;
+                }
+            } else { aborted += 1; }
         }
         for (k, db, path) in dbs.drain(..) {
             drop(db);
@@ -136,6 +176,6 @@ pub fn run(args: &Args) {
     trace.flush();
     println!("{}", serde_json::to_string(&json!({
         "histories": n_hist, "steps": n_steps, "steps_ok": n_ok, "steps_failed": n_fail, "reopened": n_reopen,
-        "aborted_runs": aborted, "distinct_step_events": distinct.len(), "trace_events": trace.events, "variants": kinds.len(),
+        "aborted_runs": aborted, "searches": n_search, "searches_nontrivial": n_search_nt, "distinct_step_events": distinct.len(), "trace_events": trace.events, "variants": kinds.len(),
     })).unwrap());
 }
